@@ -28,6 +28,8 @@ Partitions == {0, 1}      \* of the stream the members subscribe to
 ObsOf(e) == IF e.a = "Wait" /\ e.obs.crash = ""
             THEN [a |-> e.obs.a, err |-> e.obs.err, fired |-> PairSet(e.obs.fired), acc |-> ToSet(e.obs.acc),
                   rej |-> ToSet(e.obs.rej)]
+            ELSE IF e.a = "Join" /\ e.obs.err = "" /\ e.obs.crash = ""
+            THEN [a |-> e.obs.a, err |-> e.obs.err, rc |-> e.obs.rc, re |-> e.obs.re]
             ELSE [a |-> e.obs.a, err |-> e.obs.err]
 
 Bind(e) ==
